@@ -70,6 +70,34 @@ class QueryWorld:
                 return out
             self.adj = self._rows(nb, "adj")
         self.ids = [Int("t1"), Int("t2")]
+        self.materialise_timelines([Int("q")])
+
+    def materialise_timelines(self, instants):
+        """Give every stored pair a concrete canonical timeline that agrees with the presence valuation at the given
+        instants (terms over one base symbol): present instants form runs; where the pair is absent at an instant the
+        timeline has a gap there *inside* its envelope.  Code that decides presence by reading the timeline itself (instead
+        of calling the presence test) is then interpreted on consistent data."""
+        if not instants or len({i.base for i in instants}) != 1:
+            return
+        base = instants[0].base
+        offs = sorted(i.k for i in instants)
+        for k, d in self.dicts.items():
+            vals = {}
+            for o in offs:
+                key = ("present", k, repr(Int(base, o)))
+                if key not in self.choices:
+                    return
+                vals[o] = self.choices[key]
+            lo, hi = offs[0] - 3, offs[-1] + 3
+            pres = {o for o in offs if vals[o]} | {lo, hi}        # sentinels keep every queried instant inside the envelope
+            runs = []
+            for o in sorted(pres):
+                if runs and runs[-1][1] == o - 1:
+                    runs[-1][1] = o
+                else:
+                    runs.append([o, o])
+            d.entries[Const("t")] = ListObj([ListObj([Int(base, a), Int(base, b)], persistent=True, tag="interval")
+                                             for a, b in runs], persistent=True, tag="timeline(%s,%s)" % k)
 
     def _rows(self, f, tag):
         outer = DictObj(persistent=True, tag=tag)
@@ -106,6 +134,17 @@ class QueryWorld:
         pass
 
     def generic_elements(self, ip, it, node):
+        return None
+
+    def eval_fstring(self, ip, parts, node):
+        return None
+
+    def truth_of(self, ip, v):
+        if isinstance(v, SnapView):
+            return True         # the modelled graphs have snapshots
+        return None
+
+    def type_of(self, ip, v):
         return None
 
     def resolve_name(self, ip, name, node):
